@@ -1,22 +1,49 @@
 #!/bin/sh
-# usage: seedall.sh [tier] [ids...]   applies every seeded change of /verif/seeded to /repo in turn, runs the check of its
-# property, reverts; writes /verif/seeded/RESULTS.tsv (id, property, applies, exit code, first clause reported)
+# usage: seedall.sh [tier] [ids...]
+# Runs the check of each seeded change's property against a scratch worktree of /repo with the change applied
+# (VERIF_REPO; same result as applying it to /repo itself, without blocking /repo; four at a time), then removes the
+# worktree.  Writes /verif/seeded/RESULTS.tsv: id, property, applies, exit code, first clause reported.
 tier=${1:-quick}; [ $# -gt 0 ] && shift
 cd /verif || exit 9
 ids=${*:-$(ls seeded | grep '^S-')}
-out=seeded/RESULTS.tsv
-[ $# -eq 0 ] && : > $out
-for id in $ids; do
+mkdir -p /tmp/wts .run/seed
+one() {
+  id=$1
   prop=$(python3 -c "import json;print(json.load(open('seeded/$id/meta.json'))['property'])")
-  if ! git -C /repo apply --check /verif/seeded/$id/patch.diff 2>/dev/null; then
-    printf '%s\t%s\tno\t-\t-\n' $id $prop >> $out; echo "$id does not apply"; continue
+  wt=/tmp/wts/$id
+  git -C /repo worktree remove --force $wt >/dev/null 2>&1
+  git -C /repo worktree add -q --detach $wt HEAD || return
+  if ! git -C $wt apply /verif/seeded/$id/patch.diff 2>/dev/null; then
+    printf '%s\t%s\tno\t-\t-\n' $id $prop > .run/seed/$id.tsv
+  else
+    VERIF_REPO=$wt VERIF_EVIDENCE=/verif/.run/seed/ev-$id VERIF_OUT=/verif/.run/seed/out-$id VERIF_SEED=${VERIF_SEED:-1} \
+      timeout 2400 ./check $prop $tier > .run/seed/$id.log 2>&1; rc=$?
+    clause=$(grep -m1 '^VIOLATION' .run/seed/$id.log | sed -e 's/.*clause=\([A-Za-z0-9_]*\).*/\1/')
+    [ -z "$clause" ] && clause=$(grep -m1 -E '^INCONCLUSIVE|^KNOWN' .run/seed/$id.log | cut -c1-70)
+    printf '%s\t%s\tyes\t%s\t%s\n' $id $prop $rc "$clause" > .run/seed/$id.tsv
   fi
-  git -C /repo apply /verif/seeded/$id/patch.diff
-  VERIF_SEED=${VERIF_SEED:-1} timeout 1800 ./check $prop $tier > .run/seed-$id.log 2>&1; rc=$?
-  git -C /repo checkout -- .
-  clause=$(grep -m1 '^VIOLATION' .run/seed-$id.log | sed -e 's/.*clause=\([A-Za-z0-9_]*\).*/\1/')
-  [ -z "$clause" ] && clause=$(grep -m1 -E '^INCONCLUSIVE|^KNOWN' .run/seed-$id.log | cut -c1-60)
-  printf '%s\t%s\tyes\t%s\t%s\n' $id $prop $rc "$clause" >> $out
-  echo "$id $prop rc=$rc $clause"
+  git -C /repo worktree remove --force $wt
+  rm -rf .run/seed/ev-$id .run/seed/out-$id
+  cat .run/seed/$id.tsv
+}
+n=0
+for id in $ids; do
+  one $id &
+  n=$((n+1))
+  if [ $((n % 4)) -eq 0 ]; then wait; fi
 done
-git -C /repo status --short
+wait
+git -C /repo worktree prune
+if [ -f seeded/RESULTS.tsv ]; then cp seeded/RESULTS.tsv .run/seed/prev.tsv; else : > .run/seed/prev.tsv; fi
+python3 - <<'PY'
+import glob, os
+rows = {}
+for l in open('/verif/.run/seed/prev.tsv'):
+    f = l.rstrip('\n').split('\t')
+    if f and f[0]: rows[f[0]] = l.rstrip('\n')
+for p in glob.glob('/verif/.run/seed/S-*.tsv'):
+    l = open(p).read().rstrip('\n')
+    if l: rows[l.split('\t')[0]] = l
+with open('/verif/seeded/RESULTS.tsv', 'w') as f:
+    for k in sorted(rows): f.write(rows[k] + '\n')
+PY
